@@ -67,6 +67,8 @@ pub struct SlaveCore {
     /// flavour: a slave whose Chk_Cfg access point is only enabled once it has parameters answers a
     /// Chk_Cfg in Wait_Prm with "RS" (like the common ASICs do) instead of acknowledging and ignoring it
     pub strict_sap: bool,
+    /// response status of this station's FDL status replies (0 = OK; a busy station may say RR etc.)
+    pub status_reply_code: u8,
     pub addr: u8,
     pub ident: u16,
     pub cfg: Vec<u8>,
@@ -123,6 +125,7 @@ impl SlaveCore {
             ext_diag: Vec::new(),
             ext_diag_flag: false,
             strict_sap: false,
+            status_reply_code: 0,
             extra_status1: 0,
             extra_status2: 0,
             wd_on: false,
@@ -226,7 +229,7 @@ impl SlaveCore {
         let RTel::Data { sa, dsap, ssap, fc, pdu, .. } = tel else { return None };
         let RFc::Req { code, .. } = fc else { return None };
         if *code == rc::REQ_FDL_STATUS {
-            return rc::encode(&self.resp(*sa, None, None, 0, vec![]));
+            return rc::encode(&self.resp(*sa, None, None, self.status_reply_code, vec![]));
         }
         if !self.is_dp_slave {
             // a non-DP station: negative acknowledgement "SAP not enabled" for everything
